@@ -454,5 +454,6 @@ func TestC04(t *testing.T) {
 			}
 		}
 	}
+	c04ManyIdentities(ev, vlib.DriverMemory)
 	finish(t, ev)
 }
